@@ -102,7 +102,12 @@ void verif_event(int kind, const volatile void* a, const volatile void* b) {
     rt_name(f, sizeof *f, 1000 + k, sizeof *f);
     rt_reg((void*)&f->state, 4, 200 + k, 4);
   }
-  if (kind == 1 || kind == 2 || kind == 3) {       /* schedule / next / steal: (fiber) */
+  if (kind == 1 || kind == 2 || kind == 3) {       /* schedule / next / steal: (scheduler, fiber) */
+    /* a run queue has ONE owner (push/pop): a schedule or next on a scheduler that is not the calling kernel thread's
+     * is reported (959); steals are the only legitimate foreign access */
+    fiber_manager_t* me = fiber_manager_get();
+    if (kind != 3 && me && (const volatile void*)me->scheduler != a)
+      rt_event(959, K_EV, rt_canon((uint64_t)(uintptr_t)b));
     rt_event(950 + kind, K_EV, rt_canon((uint64_t)(uintptr_t)b));
   } else if (kind == 4) {                          /* switch old -> new */
     rt_event(954, K_EV, rt_canon((uint64_t)(uintptr_t)a));
